@@ -28,13 +28,7 @@ theorem logPos_ip (p : Pos) (log : List Ev) : (logPos p log).ip = p.ip + logCopi
     cases e <;> simp [Ev.step, logCopied]
     omega
 
-theorem logPos_k (p : Pos) (log : List Ev) : (logPos p log).k = p.k + (logReqs log).length := by
-  induction log generalizing p with
-  | nil => rfl
-  | cons e es ih =>
-    show (logPos (e.step p) es).k = p.k + (logReqs (e :: es)).length
-    rw [ih]
-    cases e <;> simp [Ev.step, logReqs, Ev.req, List.filterMap_cons] <;> omega
+theorem logPos_k (p : Pos) (log : List Ev) : (logPos p log).k = p.k + (logReqs log).length := logPos_k' p log
 
 /-- **the requests tile the input**: in a well-formed log the `[lo, hi)` of the `encode_data`
 requests are consecutive, start at the initial `last_processed_pos_` and end at the final one,
@@ -77,7 +71,7 @@ theorem logOK_tiles {p : Pos} {log : List Ev} (h : LogOK p log) (hle : p.lp ≤ 
     | pad l => exact ih h2 hle
     | mdHeader n l => exact ih h2 hle
     | mdBody b => exact ih h2 hle
-    | tau => exact ih h2 hle
+    | tau j => exact ih h2 hle
 
 /-! ### composition of emitted pieces -/
 
@@ -160,7 +154,7 @@ theorem pieces_compose {Dec : List Bool → Bytes → Prop} (hnil : Dec [] [])
       have := happ _ _ _ _ h1 (ih _ _ h2)
       rw [take_drop_add] at this
       exact this
-    | tau =>
+    | tau j =>
       obtain ⟨h1, h2⟩ := h
       have := happ _ _ _ _ h1 (ih _ _ h2)
       rw [take_drop_add] at this
@@ -188,6 +182,31 @@ theorem logAdv_lf {p : Pos} {log : List Ev} (h : LogOK p log) (hnf : ∀ e ∈ l
     | pad l => simp [Ev.adv, Ev.step]
     | mdHeader n l => simp [Ev.adv, Ev.step]
     | mdBody b => simp [Ev.adv, Ev.step]
-    | tau => simp [Ev.adv, Ev.step]
+    | tau j => simp [Ev.adv, Ev.step]
+
+theorem logBodyBits_noWindow (o : Oracle) {log : List Ev} (h : NoWindow log) : logBodyBits o log = logBits o log := by
+  induction log with
+  | nil => rfl
+  | cons e es ih =>
+    have ih' := ih (fun e' he' => h e' (List.mem_cons_of_mem _ he'))
+    have hne : ∀ b, e ≠ .window b := h e List.mem_cons_self
+    cases e with
+    | window b => exact absurd rfl (hne b)
+    | copy c => simp [logBodyBits, logBits, ih'] <;> rfl
+    | push => simp [logBodyBits, logBits, ih'] <;> rfl
+    | pad l => simp [logBodyBits, logBits, ih'] <;> rfl
+    | enc k r p sk tk => simp [logBodyBits, logBits, ih'] <;> rfl
+    | fast k r => simp [logBodyBits, logBits, ih'] <;> rfl
+    | mdHeader n l => simp [logBodyBits, logBits, ih'] <;> rfl
+    | mdBody b => simp [logBodyBits, logBits, ih'] <;> rfl
+    | tau j => simp [logBodyBits, logBits, ih'] <;> rfl
+
+theorem deliveredBits_fresh {s : St} (h : IsFresh s) : deliveredBits {} s = [] := by
+  obtain ⟨p, rfl⟩ := h
+  simp [deliveredBits, St.new, St.carry, bitsOf, bytesBits]
+
+theorem pos_fresh {s : St} (h : IsFresh s) : s.pos = ⟨0, 0, 0, 0⟩ := by
+  obtain ⟨p, rfl⟩ := h
+  rfl
 
 end BV.Stream
